@@ -18,7 +18,7 @@ def check(ctx):
         "token is filtered or reordered before the submit choke point; R7 SpanId::next_id stores (prefix, counter + c) back with a "
         "non-zero constant c on every call, composes the id as (prefix << 32) | counter, draws the prefix at random per thread "
         "and falls back to a random id during thread-local teardown; R8 enter_with_parents answers with a no-op span only when the "
-        "token collected from all parents is empty (never because of the first parent alone).")
+        "token collected from all parents is empty (never because of the first parent alone). R6 also: issue_collect_token / current_collect_token use no selecting or reordering adaptor.")
     ctx.explanation += (" R9 the delivery bundle: queues drained to their end with the registry filtered in place, closed = closed and empty, "
                         "stale sets kept unless cancelable, shared sets fanned out to every parent, one sampling filter at the choke point, a scope "
                         "records iff any parent is sampled, setting a local parent opens a scope, no-op only without a recording parent.")
